@@ -9,6 +9,7 @@ RULE_MODULES: Dict[str, str] = {
     "R1": "r01_waitset",
     "R2": "r02_bound",
     "R3": "r03_protocol",
+    "R4": "r04_schedule",
     "R11": "r11_reply",
 }
 
